@@ -339,7 +339,10 @@ func lexComment(l *lexer) stateFn {
 		return lexEOF
 	}
 
-	for unicode.IsSpace(rune(l.input[l.pos+i-1])) {
+	// Exclude the blanks in front of the line break (e.g. the '\r' of a CRLF).
+	// Only single-byte blanks are looked at: the input is UTF-8, and a byte
+	// such as 0x85 or 0xA0 is the tail of a multi-byte character.
+	for b := l.input[l.pos+i-1]; b == ' ' || b == '\t' || b == '\r'; b = l.input[l.pos+i-1] {
 		i -= 1
 	}
 	l.pos += i
